@@ -83,6 +83,17 @@ Definition replace_check
       else if graph_eqb gm res then 0 else 11
     end.
 
+(** ** start_graph.  input: start label, counter, the implementation's graph (fresh ids numbered
+    in order of appearance from the counter).
+    verdicts: 0 ok; 1 not "one edge labelled by the start symbol attached to fresh, pairwise
+    distinct nodes of the right labels, nothing else, no external nodes"; 10 differs from the model *)
+Definition start_check (x : wlab * nat * wgraph) : nat :=
+  let '(wl, nx, wg) := x in
+  let s := d_lab wl in let g := d_graph wg in
+  if negb (start_ok s g) then 1
+  else let '(gm, _, _) := start_graph_model s nx in
+       if graph_eqb gm g then 0 else 10.
+
 (** ** one linearisation of the replacement steps of a derivation tree.
     input: tree, counter, linearisation (paths), the implementation's final graph with the names
     obtained through the maps its replace_edge calls returned.
@@ -147,12 +158,15 @@ Definition canon_graph (g : graph) : graph :=
 Definition canon_asst (g : graph) (a : asst_t) : asst_t := map (fun p => (canon_node g (fst p), snd p)) a.
 
 Definition nv_eqb (a b : name * nat) : bool := name_eqb (fst a) (fst b) && Nat.eqb (snd a) (snd b).
+Definition named_asst (nn : list (node * name)) (a : asst_t) : list (name * nat) :=
+  flat_map (fun vx => match aget node_eqb nn (fst vx) with Some nmv => [(nmv, snd vx)] | None => [] end) a.
 
 (** input: tree, counter, implementation's (graph, assignment, node names, edge names),
     weight table, product of the factor weights computed by the implementation's factors.
-    verdicts: 0 ok; 1 graph not isomorphic to [derived_graph]; 2 assignment not total or not
-    the derived assignment; 3 weight product differs from the product of the rule-instance
+    verdicts: 0 ok; 1 graph not isomorphic to [derived_graph]; 2 assignment not total on the
+    graph's nodes; 3 weight product differs from the product of the rule-instance
     weights; 4 tree not well-formed (harness bug); 10 differs from derive_model; 11 model raised;
+    12 assignment (through the names) is not the denotational [derived_asst];
     20 equal to the model up to dict order *)
 Definition derive_check
   (x : wtree * nat * (wgraph * list (wnode * nat) * list (wnode * wname) * list (wedge * wname)) * wtab * N) : nat :=
@@ -168,12 +182,12 @@ Definition derive_check
     let en := map (fun p => (d_edge (fst p), d_name (snd p))) wen in
     let w := fun (l : elabel) vs => wlookup tab (l_name l) vs in
     if negb (same_upto_naming g nn en d) then 1
-    else if negb (forallb (fun v => amem node_eqb a v) (g_nodes g)
-                  && nodupb node_eqb (map fst a)
+    else if negb (forallb (fun v => amem node_eqb a v) (g_nodes g)) then 2
+    else if negb (nodupb node_eqb (map fst a)
                   && perm_eqb nv_eqb
                        (flat_map (fun vx => match aget node_eqb nn (fst vx) with
                                             | Some nmv => [(nmv, snd vx)] | None => [] end) a)
-                       (derived_asst t)) then 2
+                       (derived_asst t)) then 12
     else match graph_weight N_ops w g a, tree_weight N_ops w t with
          | Some p1, Some p2 =>
            if negb (N.eqb p1 p2 && N.eqb p1 pimpl) then 3
@@ -183,9 +197,19 @@ Definition derive_check
                   let gm := ds_graph s in
                   if graph_eqb (canon_graph gm) (canon_graph g)
                      && list_eqb (pair_eqb node_eqb Nat.eqb) (canon_asst gm (ds_asst s)) (canon_asst g a) then 0
-                  else if graph_permb (canon_graph gm) (canon_graph g)
-                          && perm_eqb (pair_eqb node_eqb Nat.eqb) (canon_asst gm (ds_asst s)) (canon_asst g a) then 20
-                  else 10
+                  else
+                    (* observation level: graph and assignment read through the names *)
+                    match run (preorder [] t) (init_state t nx) with
+                    | Ok rs =>
+                      match rename_graph (rs_nnames rs) (rs_enames rs) with
+                      | Some dm =>
+                        if perm_eqb dnode_eqb (d_nodes dm) (d_nodes d) && perm_eqb dedge_eqb (d_edges dm) (d_edges d)
+                           && perm_eqb nv_eqb (named_asst (rs_nnames rs) (rs_asst rs)) (named_asst nn a)
+                        then 20 else 10
+                      | None => 10
+                      end
+                    | Err _ => 10
+                    end
                 end
          | _, _ => 3
          end.
